@@ -973,9 +973,11 @@ class Interp(Engine):
                 self.contract = saved_contract
                 self.in_clause = saved_clause
                 vt = None
+                vt_name = None
                 for vname, cand in list(c.variants.items()) + list(c.call_variants.items()):
                     if all(self.kind_matches(code_env[pn], pT) for pn, pT in cand.items() if pn in code_env):
                         vt = cand
+                        vt_name = vname
                         if vname in c.call_variants:
                             self.sh.assumed = getattr(self.sh, "assumed", set())
                             self.sh.assumed.add("call of %s uses its generic call variant %r (justified by its exhaustively verified constant variants)" % (c.key, vname))
@@ -1050,7 +1052,7 @@ class Interp(Engine):
                 env["result"] = res
                 for gname, gT in c.ghost_results.items():
                     env[gname] = self.fresh(gT, "%s.%s" % (c.key, gname))
-                for cl in c.ensures:
+                for cl in c.ensures + c.variant_ensures.get(vt_name, []):
                     if cl.startswith("lemma:"):
                         continue   # proof steps of the callee's own proof, not part of its interface
                     t = self.truth(self.eval_clause(cl))
